@@ -565,9 +565,20 @@ class Evaluator:
                     break
                 if e.kind == "call" and e.data.get("mutates") == it:
                     return None
-            if lit is not None and any(e.kind == "call" and e.data.get("mutates") == it for e in st.events):
+
+            def touched(evs: List[Event]) -> bool:
+                for e in evs:
+                    if e.kind == "call" and (e.data.get("mutates") == it or (e.recv == it and e.name in MUTATORS) or (e.site.targets and (it in e.args or it in [v for _, v in e.kwargs]))):
+                        return True
+                    if e.kind == "store" and e.base == it:
+                        return True
+                    if e.kind == "loop" and any(touched(bp.events) for bp in e.paths):
+                        return True
+                return False
+
+            if lit is not None and touched(st.events):
                 return None
-        if lit is None or lit[0] not in ("tuple", "list") or not (1 <= len(lit[1]) <= 12) or any(x[0] == "star" for x in lit[1]):
+        if lit is None or lit[0] not in ("tuple", "list") or not (0 <= len(lit[1]) <= 12) or any(x[0] == "star" for x in lit[1]):
             return None
         return list(lit[1])
 
